@@ -99,7 +99,8 @@ def do_run(name, tier='quick', ids=None, seed=None):
         r = sh(['git', '-C', tree, 'apply', os.path.join(d, 'patch.diff')])
         assert r.returncode == 0, r.stdout
         for i in ids:
-            env = dict(os.environ, VERIF_REPO=tree)
+            outdir = os.path.join(SW, 'out-' + name)
+            env = dict(os.environ, VERIF_REPO=tree, VERIF_OUT_DIR=outdir)
             if seed is not None:
                 env['VERIF_SEED'] = str(seed)
             t0 = time.time()
@@ -115,8 +116,7 @@ def do_run(name, tier='quick', ids=None, seed=None):
                 print(r.stdout[-1500:])
     finally:
         drop(tree)
-        # evidence files were rewritten by the mutant run: restore the committed ones
-        sh(['git', '-C', ROOT, 'checkout', '--', 'evidence'])
+        shutil.rmtree(os.path.join(SW, 'out-' + name), ignore_errors=True)
     resf = os.path.join(SEEDED, 'RESULTS.json')
     allr = json.load(open(resf)) if os.path.exists(resf) else {}
     allr.setdefault(name, {}).setdefault(tier, {}).update(res)
